@@ -8,6 +8,7 @@ import forsys.virtual_edges as ve
 import forsys.borders as borders
 from forsys.exceptions import BigEdgesBadlyCreated
 import warnings
+import os
 @dataclass
 class ForceMatrix:
     """
@@ -256,6 +257,7 @@ class ForceMatrix:
         mprime = mprime.astype(np.float64)
         # flatten b to convert it to a vector. Rounding is to keep old behavior (not sure if it's useful)
         b = b.astype(np.float64).flatten().round(3)
+        _verif_path = solver_method if solver_method in ("lsq", "lsq_linear", "fix_stress") else "inv"
         try:
             if solver_method == "lsq_linear":
                 solutions = scop.lsq_linear(mprime,
@@ -316,6 +318,12 @@ class ForceMatrix:
         except (ValueError, np.linalg.LinAlgError, TypeError) as e:
             warnings.warn(f"Numerically solving due to the following error: {e}")
             xres, _ = scop.nnls(mprime, b, maxiter=kwargs.get("nnls_max_iter"))
+            _verif_path = "nnls-fallback"
+
+        if os.environ.get("FORSYS_VERIF") == "1":
+            # verification hook (add-only): the augmented system, the raw solution and the path taken
+            self._verif = {"mprime": np.array(mprime, dtype=float), "b": np.array(b, dtype=float),
+                           "xres_raw": np.array(xres, dtype=float), "path": _verif_path}
 
         if kwargs.get("verbose", False):
             print("Residuals ||AX - B||: ", np.linalg.norm(mprime @ xres - b))
